@@ -39,13 +39,13 @@ class KeyB:
         return KeyB((self.k, i))
 
     def deref(self):
-        return KeyB(("deref", "opq:%s" % (self.k,)))
+        return KeyB(("deref", "opq:" + symex.kfmt(self.k)))
 
     def opq(self):
-        return "opq:%s" % (self.k,)
+        return "opq:" + symex.kfmt(self.k)
 
     def ref(self):
-        return "&opq:%s" % (self.k,)
+        return "&opq:" + symex.kfmt(self.k)
 
     def call(self, short, *akeys):
         return KeyB(("call", short, tuple(akeys)))
@@ -59,6 +59,7 @@ class MContext:
         self.queries = 0
         self.cross = {"agree": 0, "skipped": 0, "disagree": 0}
         self.parsed = {}
+        self.cross_budget = 60      # unsat queries re-decided by the second solver (every sat one always is)
 
     def mir(self, crate, extra_flags=None, tag=""):
         path, dt, regen = mirdump.dump(crate, extra_flags, tag)
@@ -87,7 +88,12 @@ class MContext:
         self.queries += 1
         res = "sat" if r == z3.sat else ("unsat" if r == z3.unsat else "unknown")
         model = s.model() if r == z3.sat else None
-        # cross-check
+        # cross-check (every sat verdict; unsat verdicts until the budget is used up)
+        if res == "unsat":
+            if self.cross_budget <= 0:
+                self.cross["not_rechecked"] = self.cross.get("not_rechecked", 0) + 1
+                return res, model
+            self.cross_budget -= 1
         try:
             smt = "(set-logic ALL)\n" + s.to_smt2()
             p = subprocess.run(["cvc5", "--lang", "smt2", "--tlimit=60000"], input=smt, capture_output=True, text=True, timeout=90)
@@ -106,10 +112,30 @@ class MContext:
             self.cross["skipped"] += 1
         return res, model
 
+    def implied_eq(self, path, term, val, width=64):
+        """is `term == val` implied by the path condition?  (auxiliary query: one incremental z3
+        solver per path, not a property verdict, so it is not sent to the second solver)"""
+        s = getattr(path, "_solver", None)
+        if s is None:
+            s = z3.Solver()
+            for c in path.pc:
+                s.add(c)
+            path._solver = s
+        s.push()
+        s.add(term != z3.BitVecVal(val, width))
+        t0 = time.time()
+        r = s.check()
+        self.solver_time += time.time() - t0
+        self.aux_queries = getattr(self, "aux_queries", 0) + 1
+        s.pop()
+        return r == z3.unsat
+
     def finish(self):
         self.out.extra_cov["solver_cross_check"] = dict(self.cross, second_solver="cvc5 1.0 on the SMT-LIB2 dump of every z3 query")
         self.out.extra_cov["mir_dump_s"] = round(self.mir_time, 1)
         self.out.extra_cov["z3_queries"] = self.queries
+        self.out.extra_cov["z3_auxiliary_queries"] = getattr(self, "aux_queries", 0)
+        self.out.extra_cov["z3_time_s"] = round(self.solver_time, 2)
         if self.cross["disagree"]:
             self.out.fatal = "z3 and cvc5 disagree on %d queries" % self.cross["disagree"]
 
